@@ -158,7 +158,9 @@ def events(facts, inter, body, depth=3, _seen=None):
                 if dt[0] == "discr" and dt[2] and dt[2][0] not in ("Ok", "Continue", "None", "Ready", "Some", "Occupied", "Borrowed"):
                     for v, _ in t.targets:
                         if v < len(dt[2]):
-                            ev.add("match:" + dt[2][v])
+                            # a test of the file type is the same event whether it is spelled `== File` (an aggregate that is
+                            # compared) or `matches!(.., File)` (a switch)
+                            ev.add(("filetype:" if set(dt[2]) == {"File", "Directory"} else "match:") + dt[2][v])
     return ev
 
 
